@@ -503,6 +503,7 @@ def add_connection(u):
                C('C02+C06.acct.handle_srtla_ack_global.frame', '*final(self) == (SrtlaConnection { window: final(self).window, ..*old(self) })'),
            ]))
     u.add(impl_block('SrtlaConnection', fns))
+    u.add(S.CONN_FLOAT_STUBS)
 
 
 # ------------------------------------------------------------------ selection
